@@ -740,6 +740,14 @@ class Interp(ExprMixin):
                 rec["wait_key"] = self.lock_key(wk)
             rec["kind"] = "acquire"
             self.lock_events.append(rec)
+            for r in getattr(op, "wait_raises", []):
+                # a wait that gives up (timeout) leaves the helper by this raise, the identifier NOT claimed
+                lab = "*"
+                if r.exc is not None and isinstance(r.exc, ast.Call) and isinstance(r.exc.func, ast.Name):
+                    lab = r.exc.func.id
+                elif isinstance(r.exc, ast.Name):
+                    lab = r.exc.id
+                out.add_raise(lab if lab in self.p.exc_classes or lab == "*" else lab, st)
             lk = (cls, key)
             st = st.set(held_must=st.held_must | {lk}, held_may=st.held_may | {lk})
             rec["after"] = st
